@@ -576,6 +576,26 @@ func ruleSerialDrain(c *core.Ctx, rule string, fn *ssa.Function) {
 			}
 		}
 	}
+	// the queue is drained: the goroutine does not choose between the queue and another
+	// channel (select takes any ready case: what was accepted into the queue is then
+	// abandoned at random once the other channel is ready, e.g. closed)
+	for _, f := range core.AnonFuncs(g) {
+		for _, b := range f.Blocks {
+			for _, in := range b.Instrs {
+				if sel, ok := in.(*ssa.Select); ok && len(sel.States) >= 2 && bad == "" {
+					nrecv := 0
+					for _, st := range sel.States {
+						if st.Dir == types.RecvOnly {
+							nrecv++
+						}
+					}
+					if nrecv >= 2 {
+						bad = "the goroutine draining the queue selects between the queue and another channel (at " + c.Pos(sel.Pos()) + "): select does not prefer the queue, so messages already accepted into it are dropped at random once the other channel is ready (a handler being closed loses what it had been given)"
+					}
+				}
+			}
+		}
+	}
 	if nRecv == 0 && bad == "" {
 		bad = "the mailbox goroutine never hands a mail to the Receiver"
 	}
